@@ -7,14 +7,15 @@ package node
 
 // ---- C05: field constraints -----------------------------------------------------------------------
 
-// every level of the typedef chain must hold the value in one of its alternatives
+// every level of the typedef chain must hold the value (each element of a leaf-list) in one of its alternatives;
+// okRangeV(r, v) is meta's opaque name for inRangeV(r, v)
 //@ func (check fieldConstraints) checkRange(v val.Value, t *meta.Type) error
 //@   mode int
 //@   property C05
-//@   requires t != nil && rangeable(v)
-//@   requires forall k int :: 0 <= k && k < len(t.ranges) ==> wfRange(t.ranges[k], v)
+//@   requires t != nil
+//@   requires forall k int :: 0 <= k && k < len(t.ranges) ==> wfRangeO(t.ranges[k], v)
 //@   assigns nothing
 //@   loop 1 invariant -1 <= rangeindex && rangeindex < len(t.ranges)
-//@   loop 1 invariant forall k int :: 0 <= k && k <= rangeindex ==> inRange(t.ranges[k], v)
+//@   loop 1 invariant forall k int :: 0 <= k && k <= rangeindex ==> okRangeV(t.ranges[k], v)
 //@   loop 1 decreases len(t.ranges) - rangeindex
-//@   ensures (result == nil) == (forall k int :: 0 <= k && k < len(t.ranges) ==> inRange(t.ranges[k], v))
+//@   ensures (result == nil) == (forall k int :: 0 <= k && k < len(t.ranges) ==> okRangeV(t.ranges[k], v))
